@@ -73,6 +73,12 @@ def _witness(K, u, alg, op, args, raised):
     return K.mv_from(alg, tuple(w.keys()), list(w.values()))
 
 
+def full_opts(opts):
+    """Option record with every field present (TLA+ records need a fixed field set)."""
+    return {'cse': bool(opts.get('cse', True)), 'graded': bool(opts.get('graded', False)), 'wrapper': bool(opts.get('wrapper', False)),
+            'symbolcls': opts.get('symbolcls') or '', 'pretty_blade': opts.get('pretty_blade') or ''}
+
+
 def run_job(job):
     import kdriver as K
     u, opts = job['u'], job.get('opts', {})
@@ -108,7 +114,7 @@ def run_job(job):
             skipped.append([eid, op, keylists, f'encode: {e}'])
         finally:
             signal.alarm(0)
-    K.write_trace(job['out'], {'kind': 'cfg', 'u': u, 'opts': {k: (v if not callable(v) else True) for k, v in opts.items()}}, events)
+    K.write_trace(job['out'], {'kind': 'cfg', 'u': u, 'opts': full_opts(opts)}, events)
     return {'out': job['out'], 'events': len(events), 'skipped': skipped}
 
 
